@@ -64,7 +64,7 @@ func kvCase(c *hx.Ctx, block []byte, how string) {
 	var err error
 	var panicked bool
 	if withTimeout(func() {
-		_, panicked = hx.Safe(func() { err = xprotocol.DecodeHeader(append([]byte(nil), block...), &h) })
+		_, panicked = hx.Safe(func() { err = xprotocol.DecodeHeader(hx.Exact(block), &h) })
 	}) {
 		out = "hang"
 	} else if panicked {
@@ -441,7 +441,7 @@ func hpackCase(c *hx.Ctx, maxStr int, block []byte, how string) {
 	if withTimeout(func() {
 		d := hpack.NewDecoder(4096, nil)
 		d.SetMaxStringLength(maxStr)
-		_, panicked = hx.Safe(func() { fields, err = d.DecodeFull(append([]byte(nil), block...)) })
+		_, panicked = hx.Safe(func() { fields, err = d.DecodeFull(hx.Exact(block)) })
 	}) {
 		out = "hang"
 	} else if panicked {
